@@ -1,0 +1,64 @@
+//go:build verif
+
+package disassemble
+
+import (
+	"mltwist/internal/consoleui"
+	"mltwist/internal/consoleui/internal/lines"
+	"mltwist/internal/deps"
+)
+
+// This file is compiled only with the verif build tag and serves the external
+// verification harness.
+
+// VerifLine is a single line of a listing.
+type VerifLine struct {
+	Text  string
+	Mark  string
+	Block int
+	Instr int
+}
+
+func verifLines(l *lines.Lines) []VerifLine {
+	ls := make([]VerifLine, l.Len())
+	for i := range ls {
+		ln := l.Index(i)
+		ls[i] = VerifLine{Text: ln.String(), Mark: string(ln.Mark()), Block: -1, Instr: -1}
+		if b, ok := ln.Block(); ok {
+			ls[i].Block = b
+		}
+		if ins, ok := ln.Instruction(); ok {
+			ls[i].Instr = ins
+		}
+	}
+
+	return ls
+}
+
+// VerifListing returns the listing and the cursor of disassembler mode m.
+func VerifListing(m consoleui.Mode) ([]VerifLine, int, bool) {
+	d, ok := m.(*mode)
+	if !ok {
+		return nil, 0, false
+	}
+
+	return verifLines(d.view.Lines), d.view.Cursor.Value(), true
+}
+
+// VerifFormat returns line i of disassembler mode m formatted for the screen.
+func VerifFormat(m consoleui.Mode, i int) string { return m.(*mode).view.Format(i) }
+
+// VerifFreshListing renders a new listing of code.
+func VerifFreshListing(code *deps.Code) []VerifLine {
+	return verifLines(lines.NewView(code).Lines)
+}
+
+// VerifCode returns code of disassembler mode m.
+func VerifCode(m consoleui.Mode) (*deps.Code, bool) {
+	d, ok := m.(*mode)
+	if !ok {
+		return nil, false
+	}
+
+	return d.code, true
+}
